@@ -29,6 +29,8 @@ var out *vh.Out
 
 const F = limits.Frag
 
+const fragMaxMisses = 5 // c2.fragMaxMisses (only used to CLASSIFY a history, never for a verdict on its own)
+
 var idA, idB device.ID // the client's id and the server's own id: DISTINCT
 
 func devNum(d device.ID) int64 {
@@ -112,7 +114,8 @@ type HistSpec struct {
 	OrderSeed uint64     `json:"order_seed"`
 	Omit      int        `json:"omit"`       // index of the fragment of send 0 that never arrives (-1: none)
 	SweepsEnd int        `json:"sweeps_end"` // wake-ups after the last arrival
-	SweepsMid int        `json:"sweeps_mid"` // up to this many (<= 4) wake-ups between two arrivals
+	SweepsMid int        `json:"sweeps_mid"` // up to this many wake-ups before an arrival: 1 = the protocol's cadence (a client wakes up once per exchange and every exchange with a backlogged server brings at least one packet); 2..4 = a STALLED sender
+	Sched     [][2]int   `json:"sched"`      // explicit arrival schedule [send, fragment] ([-1,0] = wake-up); overrides Order/SweepsMid
 	NoModel   bool       `json:"no_model"`   // too large for a model case: oracle only
 }
 
@@ -292,7 +295,10 @@ func runHistory(h HistSpec) {
 		perSend = append(perSend, its)
 	}
 	var sched []item
-	for {
+	for _, e := range h.Sched {
+		sched = append(sched, item{e[0], e[1]})
+	}
+	for len(h.Sched) == 0 {
 		var live []int
 		for i := range perSend {
 			if len(perSend[i]) > 0 {
@@ -383,15 +389,36 @@ func runHistory(h HistSpec) {
 		arrived[i] = map[int]int{}
 		firstPos[i] = -1
 	}
+	// wake-ups: since[i] = wake-ups since the last arrival of a fragment of send i, maxIdle[i] = the most
+	// wake-ups between two successive arrivals of send i, maxGap = the most wake-ups between two
+	// successive arrivals of anything.  A real client wakes up ONCE per exchange and an exchange with a
+	// server that still holds fragments brings at least one packet (Session.next), so maxGap <= 1 is
+	// the cadence of the protocol; maxGap >= 2 describes a sender that stalled for whole wake-ups.
+	since := make([]int, len(sends))
+	maxIdle := make([]int, len(sends))
+	gap, maxGap, seenAny := 0, 0, false
 	for _, it := range sched {
-		if it.s >= 0 {
-			if firstPos[it.s] < 0 {
-				firstPos[it.s] = int(sends[it.s].obs[it.k].fpos)
+		if it.s < 0 {
+			for i := range since {
+				since[i]++
 			}
-			arrived[it.s][it.k]++
+			gap++
+			continue
 		}
+		if firstPos[it.s] < 0 {
+			firstPos[it.s] = int(sends[it.s].obs[it.k].fpos)
+		} else if since[it.s] > maxIdle[it.s] {
+			maxIdle[it.s] = since[it.s]
+		}
+		since[it.s] = 0
+		if seenAny && gap > maxGap {
+			maxGap = gap
+		}
+		gap, seenAny = 0, true
+		arrived[it.s][it.k]++
 	}
-	nontrivial, emptyFrag, overflow, notPos0 := false, false, false, false
+	stalled := maxGap >= 2
+	nontrivial, emptyFrag, overflow, notPos0, idleFive, otherFail := false, false, false, false, false, false
 	var fails []string
 	used := make([]bool, len(delivered))
 	for i, st := range sends {
@@ -412,7 +439,19 @@ func runHistory(h HistSpec) {
 		if len(st.frs) > 1 && firstPos[i] > 0 {
 			notPos0 = true
 		}
-		complete := queuedOK && !(i == 0 && h.Omit >= 0)
+		allArrived := true
+		for k := range st.frs {
+			if arrived[i][k] == 0 {
+				allArrived = false
+			}
+		}
+		// five wake-ups without a fragment of the group: the client abandons it (markSweepFrags).  When
+		// the sender stalled this is the time-out working as designed and the property (which speaks
+		// of arrival orders, not of time) demands nothing; at the protocol's own cadence it means five
+		// foreign transmissions were interleaved between two fragments: that loss is the property's.
+		timedOut := len(st.frs) > 1 && maxIdle[i] >= fragMaxMisses
+		nf := len(fails)
+		complete := queuedOK && allArrived
 		// which deliveries carry this send's (id, job)?
 		var mine []int
 		for d, dl := range delivered {
@@ -423,7 +462,12 @@ func runHistory(h HistSpec) {
 		for _, d := range mine {
 			used[d] = true
 		}
-		if complete {
+		if timedOut && stalled {
+			// no demand (a delivery, if any, is still checked for exactness below through `used`)
+			if len(mine) == 1 && !bytes.Equal(delivered[mine[0]].payload, st.payload) {
+				fails = append(fails, fmt.Sprintf("send %d delivered with a different payload", i))
+			}
+		} else if complete {
 			switch {
 			case len(mine) == 0:
 				fails = append(fails, fmt.Sprintf("send %d (payload %d bytes, %d fragments queued of %d): all queued fragments arrived but nothing was delivered", i, sp.Len, len(st.frs), want))
@@ -442,14 +486,23 @@ func runHistory(h HistSpec) {
 		} else if len(mine) > 0 {
 			fails = append(fails, fmt.Sprintf("send %d: a group with a missing fragment (or a refused packet) was delivered", i))
 		}
+		if len(fails) > nf { // the key names the idle group only when every failure of the history is "not delivered" of such a group
+			if timedOut && !stalled && len(mine) == 0 {
+				idleFive = true
+			} else {
+				otherFail = true
+			}
+		}
 	}
 	for d := range delivered {
 		if !used[d] {
 			fails = append(fails, fmt.Sprintf("a packet nobody sent was delivered (id %d job %d)", delivered[d].id, delivered[d].job))
+			otherFail = true
 		}
 	}
 	for _, a := range anomalies {
 		fails = append(fails, a)
+		otherFail = true
 	}
 
 	// ---- description / Coq term
@@ -506,6 +559,8 @@ func runHistory(h HistSpec) {
 			key = "fragments-exceed-send-queue"
 		case notPos0:
 			key = "first-arrival-not-pos0"
+		case idleFive && !otherFail:
+			key = "five-foreign-transmissions-between-fragments"
 		default:
 			key = h.Dir + "/" + h.Order
 			if emptyFrag {
@@ -576,7 +631,7 @@ func main() {
 	fl := vh.ParseFlags()
 	out = vh.NewOut("C02", fl, "From XMT Require Import Base.Prelude Model.Frag.", "case", "check",
 		"non-trivial = at least one packet of the history is split into two or more fragments")
-	out.ShardSize = 10
+	out.ShardSize = 8
 	for i := range idA {
 		idA[i] = byte(0xA0 + i%16)
 		idB[i] = byte(0x40 + i%16)
@@ -672,27 +727,58 @@ func main() {
 		h.Sends[0].Wait, h.Sends[0].Tags, h.NoModel = true, 0, true
 		hist(h)
 	}
+	{ // known finding: the protocol's cadence (one wake-up per exchange), five foreign transmissions
+		// (fragments of group B, one per exchange) between two fragments of group A: the client abandons A
+		h := HistSpec{Class: "corpus-finding", Dir: "s2c", Order: "identity", Omit: -1,
+			Sends: []SendSpec{mkSend(rng, F+100), mkSend(rng, 5*F+100)},
+			Sched: [][2]int{{0, 0}, {-1, 0}, {1, 0}, {-1, 0}, {1, 1}, {-1, 0}, {1, 2}, {-1, 0}, {1, 3}, {-1, 0}, {1, 4}, {-1, 0}, {0, 1}, {-1, 0}, {1, 5}}}
+		hist(h)
+		// four foreign transmissions: both groups are delivered
+		h = HistSpec{Class: "corpus", Dir: "s2c", Order: "identity", Omit: -1,
+			Sends: []SendSpec{mkSend(rng, F+100), mkSend(rng, 4*F+100)},
+			Sched: [][2]int{{0, 0}, {-1, 0}, {1, 0}, {-1, 0}, {1, 1}, {-1, 0}, {1, 2}, {-1, 0}, {1, 3}, {-1, 0}, {0, 1}, {-1, 0}, {1, 4}}}
+		hist(h)
+		// a sender that stalls for five wake-ups: the group is abandoned and the late fragment is answered
+		// with SvDrop (the time-out; no demand of the property), four wake-ups are survived
+		for _, z := range []int{5, 4} {
+			h = HistSpec{Class: "corpus-stall", Dir: "s2c", Order: "identity", Omit: -1, Sends: []SendSpec{mkSend(rng, 2*F+100)},
+				Sched: [][2]int{{0, 0}, {-1, 0}, {0, 1}}}
+			for ; z > 0; z-- {
+				h.Sched = append(h.Sched, [2]int{-1, 0})
+			}
+			h.Sched = append(h.Sched, [2]int{0, 2})
+			hist(h)
+		}
+	}
 	// unfragmented sizes around the limit, empty and small packets
 	for _, n := range []int{0, 1, 100, 70000, F - 100, F - 60} {
 		hist(plain("unfragmented", n, "identity"))
 	}
 
-	// ---- boundary grid: P = kF + d
+	// ---- boundary grid: P = kF + d.  Size() = P + 50 + 4*tags, so the fragment count changes at
+	// d = -50 - 4*tags and the last fragment is empty for d in [-50-4*tags, 0]: every d for k = 1, the
+	// neighbourhood of each change for the larger k (quick), every d for every k (thorough)
 	ks := []int{1, 2, 3, 5}
-	dmax, dstep := 60, 1
+	edge := map[int]bool{}
+	for _, d := range []int{-63, -62, -59, -58, -55, -54, -52, -51, -50, -49, -48, -30, -2, -1, 0, 1, 2, 30, 60} {
+		edge[d] = true
+	}
 	if thorough {
 		ks = []int{1, 2, 3, 4, 5, 8}
 	}
 	for _, k := range ks {
-		for d := -dmax; d <= dmax; d += dstep {
+		for d := -60; d <= 60; d++ {
+			if !thorough && k > 1 && (!edge[d] || (k == 5 && d%2 != 0)) {
+				continue
+			}
 			n := k*F + d
 			var h HistSpec
-			switch c := rng.Intn(8); {
+			switch c := rng.Intn(9); {
 			case c < 3:
 				h = plain("grid", n, orders[c])
 			case c < 5:
 				h = plain("grid-interleaved", n, "perm0")
-				for j := 1 + rng.Intn(3); j > 0; j-- {
+				for j := 1 + rng.Intn(2+k/3); j > 0; j-- {
 					var on int
 					switch rng.Intn(4) {
 					case 0:
@@ -700,14 +786,21 @@ func main() {
 					case 1:
 						on = F - 60 + rng.Intn(120)
 					default:
-						on = F + rng.Intn(2*F)
+						on = F + rng.Intn(F)
 					}
 					h.Sends = append(h.Sends, mkSend(rng, on))
 				}
-			case c == 5:
-				h = plain("grid-sweeps", n, "perm0")
+			case c == 5: // the protocol's cadence: a wake-up before (almost) every arrival
+				h = plain("grid-wakeups", n, "perm0")
 				h.Dir = "s2c" // only a client Session ever runs markSweepFrags
-				h.SweepsMid = 1 + rng.Intn(4)
+				h.SweepsMid = 1
+				if rng.Intn(2) == 0 {
+					h.Sends = append(h.Sends, mkSend(rng, F/2+rng.Intn(F)))
+				}
+			case c == 6: // a stalling sender: up to 4 wake-ups before an arrival
+				h = plain("grid-stall", n, "perm0")
+				h.Dir = "s2c"
+				h.SweepsMid = 2 + rng.Intn(3)
 			default:
 				h = plain("grid", n, orders[rng.Intn(3)])
 			}
@@ -731,7 +824,7 @@ func main() {
 		}
 	}
 	// ---- every single-fragment omission (+ wake-ups afterwards)
-	omitSizes := []int{F + 10, 2*F - 20, 3*F + 1, 5 * F}
+	omitSizes := []int{F + 10, 2*F - 20, 3*F + 1, 4 * F}
 	for _, n := range omitSizes {
 		for k := 0; k < plannedCount(SendSpec{Len: n}); k++ {
 			h := plain("omission", n, "perm0")
@@ -752,30 +845,33 @@ func main() {
 		}
 	}
 	// ---- random sizes and interleavings
-	nr := 40
+	nr, big := 24, 3
 	if thorough {
-		nr = 1200
+		nr, big = 1200, 5
 	}
 	for i := 0; i < nr; i++ {
 		var n int
 		switch rng.Intn(5) {
 		case 0:
-			n = (1+rng.Intn(6))*F - rng.Intn(64)
+			n = (1+rng.Intn(big+1))*F - rng.Intn(64)
 		case 1:
 			n = F/2 + rng.Intn(F)
 		default:
-			n = F + rng.Intn(5*F)
+			n = F + rng.Intn(big*F)
 		}
 		h := plain("random", n, orders[rng.Intn(3)])
 		if rng.Intn(2) == 0 {
 			h.Class = "random-interleaved"
 			for j := 1 + rng.Intn(3); j > 0; j-- {
-				h.Sends = append(h.Sends, mkSend(rng, rng.Intn(3*F)))
+				h.Sends = append(h.Sends, mkSend(rng, rng.Intn((big-1)*F)))
 			}
 		}
 		if rng.Intn(4) == 0 {
 			h.Dir = "s2c"
 			h.SweepsMid = rng.Intn(5)
+			if h.SweepsMid > 1 {
+				h.Class += "-stall"
+			}
 		}
 		hist(h)
 	}
